@@ -26,7 +26,7 @@ def frame (body : List Byte) : List Byte :=
 /-- The message a frame body (unescaped bytes between start and end sequence, checksum included)
 stands for, `none` if the body is not consistent: known type, length byte `= |body| - 3`, checksum
 matches, embedded data length `≤ 223` and `= |body| - header - 1`. -/
-def decodeBody (defaultSource now : Nat) (body : List Byte) : Option Msg :=
+def decodeBody (defaultSource now : Nat) (stampLocal : Bool) (body : List Byte) : Option Msg :=
   let t := body.getD 0 0
   let hdr := if t = 0x93 then 13 else 8
   let dlen := body.getD (hdr - 1) 0
@@ -37,8 +37,8 @@ def decodeBody (defaultSource now : Nat) (body : List Byte) : Option Msg :=
            pgn := body.getD 3 0 + 256 * body.getD 4 0 + 65536 * body.getD 5 0
            dst := body.getD 6 0
            src := if t = 0x93 then body.getD 7 0 else defaultSource
-           time := if t = 0x93 then body.getD 8 0 + 256 * body.getD 9 0 + 65536 * body.getD 10 0 +
-                     16777216 * body.getD 11 0 else now
+           time := if t = 0x93 then (if stampLocal = false then body.getD 8 0 + 256 * body.getD 9 0 +
+                     65536 * body.getD 10 0 + 16777216 * body.getD 11 0 else now) else now
            len := dlen
            data := (body.drop hdr).take dlen }
   else none
@@ -56,8 +56,11 @@ structure Valid (m : Msg) : Prop where
   dst_lt : m.dst < 256
   src_lt : m.src < 256
 
-/-- what the reader reports for the frame of `m`: the time stamp travels as 32 bits -/
-def received (m : Msg) : Msg := { m with time := m.time % 2 ^ 32 }
+/-- what the reader reports for the frame of `m`: everything but the time stamp unchanged; the time
+stamp is the embedded one (it travels as 32 bits) or, with `stampLocal`, the local receive time — the
+property leaves the decoded time stamp open -/
+def received (c : Cfg) (m : Msg) : Msg :=
+  { m with time := if c.stampLocal = false then m.time % 2 ^ 32 else c.now }
 
 /-- the frame body (without checksum) of a message -/
 def bodyOf (m : Msg) : List Byte := header m ++ m.data
